@@ -122,7 +122,7 @@ func (o *Obligation) softLines() []string {
 
 func (o *Obligation) smt(withModel bool) string {
 	var sb strings.Builder
-	if o.Class == "frame-scan" {
+	if o.Class == "frame-scan" || o.Class == "label" {
 		return "; discharged by call-graph scan, no SMT query\n"
 	}
 	sb.WriteString("(set-option :produce-models true)\n(set-logic ALL)\n")
